@@ -146,8 +146,11 @@ def DecoChunk (b : Bytes) : Prop :=
   b = bs "</td>" ∨ b = bs "</tr>"
 
 /-- every chunk the context can contribute to the output satisfies `W`: the chunks of printed
-    values, the text an `include` hands back, the decoration of `tablerow` -/
+    values, the text an `include` hands back, the decoration of `tablerow` — and the empty chunk
+    (the empty `Write` with which `WriteVerbatim` drops a pending right trim before a value or a raw
+    body) -/
 structure CtxChunks (W : Bytes → Prop) (c : RCtx) : Prop where
+  emp : W []
   obj : ∀ v cs, c.O.chunks v = .ok cs → ∀ b ∈ cs, W b
   inc : ∀ line f env out, c.inc line f env = .ret (.done, out) → W out
   deco : ∀ b, DecoChunk b → W b
@@ -359,11 +362,16 @@ theorem gpair_write (hR : RelOK W R) (b : Bytes) (hb : W b) : GPair R (writeM b)
 theorem gpair_flush (hR : RelOK W R) : GPair R flushM flushM :=
   fun env => ⟨_, _, _, tracedAtL_flush env, tracedAtL_flush env, hR.flush⟩
 
-theorem gpair_writeAll (hR : RelOK W R) : ∀ cs : List Bytes, (∀ b ∈ cs, W b) → GPair R (writeAllM cs) (writeAllM cs)
+theorem gpair_writeVerbatim (hR : RelOK W R) (h0 : W []) (b : Bytes) (hb : W b) :
+    GPair R (writeVerbatimM b) (writeVerbatimM b) := by
+  unfold writeVerbatimM
+  exact gpair_bind hR (gpair_write hR [] h0) (fun _ => gpair_bind hR (gpair_write hR b hb) (fun _ => gpair_flush hR))
+
+theorem gpair_writeAll (hR : RelOK W R) (h0 : W []) : ∀ cs : List Bytes, (∀ b ∈ cs, W b) → GPair R (writeAllM cs) (writeAllM cs)
   | [], _ => gpair_quiet hR (quiet_pure ())
   | c :: cs, h => by
     unfold writeAllM
-    exact gpair_bind hR (gpair_write hR c (h c (by simp))) (fun _ => gpair_writeAll hR cs (fun b hb => h b (by simp [hb])))
+    exact gpair_bind hR (gpair_writeVerbatim hR h0 c (h c (by simp))) (fun _ => gpair_writeAll hR h0 cs (fun b hb => h b (by simp [hb])))
 
 theorem gpair_tablerowBefore (hR : RelOK W R) (hd : ∀ b, DecoChunk b → W b) (cols i : Nat) :
     GPair R (tablerowBefore cols i) (tablerowBefore cols i) := by
